@@ -1,8 +1,10 @@
 (* C36 — graceful shutdown drains buffered traces and stops cleanly   (PARTIAL, known finding).
-   Collector part only: InMemCollector.Stop / CollectorWorker.collect as modelled in
-   Model/Shutdown.v.  Not covered by any theorem (runtime behaviour, observed by the driver only):
-   goroutines left behind, panics, transmission flush, the startstop ordering of cmd/refinery. *)
+   Collector part: InMemCollector.Stop / CollectorWorker.collect as modelled in Model/Shutdown.v.
+   Transmission part: DirectTransmission.Stop's flush as modelled in Model/Transmit.v (family txcfg),
+   theorems at the end of this file.  Not covered by any theorem (runtime behaviour, observed by the
+   driver only): goroutines left behind, panics, hangs, the startstop ordering of cmd/refinery. *)
 From Refinery Require Import Lib.Base Model.Collector Model.Shutdown Proofs.CollectorRef Proofs.CollectorTime Proofs.Shutdown Gen.GenC36.
+From Refinery Require Model.Transmit Proofs.Transmit Proofs.ShutdownTx.
 
 (* The faithful model violates the statement: the pinned Stop never visits the trace buffers, so a
    trace buffered at shutdown is neither decided nor forwarded although the sampler keeps it.
@@ -56,3 +58,39 @@ Example C36_code_shape :
   stop_closes_worker_channels && stop_waits_for_workers_before_closing_send_queue &&
   collect_returns_on_closed_channel && negb (stop_visits_buffers_in_stop || stop_visits_buffers_in_collect) = true.
 Proof. vm_compute. reflexivity. Qed.
+
+(* ---------------- transmission part of the shutdown sequence ---------------- *)
+(* "flushes every pending outgoing batch".  For every MaxBatchSize >= 1, BatchTimeout >= 4 ns, every
+   history of enqueues and clock advances (whatever the collector handed over before and during its own
+   Stop), every behaviour of the API: after DirectTransmission.Stop nothing is pending, every enqueued
+   event is in exactly one outgoing request (or was dropped as > 1 MB and counted), and the queued-items
+   gauge is back to zero. *)
+Theorem C36_transmission_stop_flushes_everything :
+  forall (mb b : Z) (beh : N -> list Transmit.resp) (bad : N -> bool) (t0 : Z) (ops : list Transmit.top),
+  1 <= mb -> 4 <= b -> Transmit.ops_ok ops = true ->
+  exists r, Transmit.run (Transmit.gen_cfg mb b) beh bad t0 (ops ++ [Transmit.Stop]) = Some r /\
+    Transmit.r_pending r = [] /\
+    Permutation.Permutation (Transmit.enqueued ops) (concat (map Transmit.rq_evs (Transmit.r_reqs r)) ++ Transmit.r_over r) /\
+    Transmit.r_ups r - Transmit.downs (Transmit.r_cnt r) = 0.
+Proof. exact Proofs.Transmit.c26_stop. Qed.
+Print Assumptions C36_transmission_stop_flushes_everything.
+
+(* The batches of the flush are sent by the same retry loop as any other batch (Stop dispatches them
+   through sendBatch): a first attempt answered 429/503 with a Retry-After sleep in (0, 60 s) is followed
+   by the sleep and a second attempt; so is a first attempt that timed out.  (The source's retry bound is 2.) *)
+Theorem C36_flush_batch_retried_after_429_503 :
+  forall (c : Transmit.tcfg) (code sl : Z) (sts : list Z) (rest : list Transmit.resp),
+  Transmit.retryable_status code = true -> 0 < sl < Transmit.retryLim c ->
+  fst (fst (Transmit.tries c 2 (Transmit.RHttp code sl sts :: rest))) = 2%N /\
+  exists more, snd (fst (Transmit.tries c 2 (Transmit.RHttp code sl sts :: rest))) = sl :: more.
+Proof. exact Proofs.ShutdownTx.tries2_retries_http. Qed.
+Print Assumptions C36_flush_batch_retried_after_429_503.
+
+Theorem C36_flush_batch_retried_after_timeout :
+  forall (c : Transmit.tcfg) (rest : list Transmit.resp),
+  fst (fst (Transmit.tries c 2 (Transmit.RTimeout :: rest))) = 2%N.
+Proof. exact Proofs.ShutdownTx.tries2_retries_timeout. Qed.
+Print Assumptions C36_flush_batch_retried_after_timeout.
+
+Example C36_retry_bound_in_source : forall mb b, Transmit.ntries (Transmit.gen_cfg mb b) = 2%nat.
+Proof. exact Proofs.ShutdownTx.flush_ntries. Qed.
